@@ -108,11 +108,20 @@ pub fn one<M: Model, R: Conv<M::F>>(ctx: &Ctx<M, R>, rep: &mut Report, rng: &mut
         if table.len() != 1 << (w - 1) {
             rep.violation(sig("WnafContext::table", "length"), detail("table"));
         }
-        path!(&format!("WnafContext({w})::mul_with_table (exact)"), exp, wctx.mul_with_table(&table, &s).expect("exact table"));
+        // a table of at least 2^(w-1) entries must be accepted (None is documented for too small tables only)
+        match rep.total(&sig("WnafContext::mul_with_table", "total"), || detail("exact table"), || wctx.mul_with_table(&table, &s)) {
+            Some(Some(r)) => path!(&format!("WnafContext({w})::mul_with_table (exact)"), exp, r),
+            Some(None) => rep.violation(sig("WnafContext::mul_with_table", "none-for-exact-table"), detail("exact table")),
+            None => {},
+        }
         if w < 10 {
             let big = WnafContext::new(w + 1).table(g);
             rep.class("wnaf: oversized table");
-            path!(&format!("WnafContext({w})::mul_with_table (oversized)"), exp, wctx.mul_with_table(&big, &s).expect("oversized table"));
+            match rep.total(&sig("WnafContext::mul_with_table", "total"), || detail("oversized table"), || wctx.mul_with_table(&big, &s)) {
+                Some(Some(r)) => path!(&format!("WnafContext({w})::mul_with_table (oversized)"), exp, r),
+                Some(None) => rep.violation(sig("WnafContext::mul_with_table", "none-for-oversized-table"), detail("oversized table")),
+                None => {},
+            }
         }
         if w > 2 {
             rep.class("wnaf: undersized table -> None");
